@@ -23,7 +23,7 @@ def rand_attrs(rng, version, name=None):
         pool += [("external", "flag_present", None), ("declaration", "flag_present", None), ("high_pc", "data4", rng.randint(0, 1000)),
                  ("stmt_list", "sec_offset", 0)]
     if version >= 5:
-        pool += [("decl_line", "implicit_const", rng.randint(-5, 5)), ("byte_size", "data16", bytes(range(16)))]
+        pool += [("decl_line", "implicit_const", rng.randint(0, 300)), ("byte_size", "data16", bytes(range(16)))]
     used = {"name"}
     for _ in range(rng.randint(0, 4)):
         a = rng.choice(pool)
@@ -51,7 +51,7 @@ def rand_tree(rng, version, depth, maxdepth, budget):
     return d
 
 
-def gen_forest(rng, shape=None):
+def gen_forest(rng, shape=None, siblings=True):
     """Structural forest with partial-unit imports.  Returns Forest."""
     shape = shape or rng.choice(["plain", "plain", "imports", "imports", "deep", "empty", "many", "chain"])
     units = []
@@ -101,7 +101,8 @@ def gen_forest(rng, shape=None):
     rng.shuffle(units) if rng.random() < 0.3 and not partials else None
     if partials and rng.random() < 0.5:
         units = cus[:1] + partials + cus[1:]      # partial units in the middle of the section
-    add_siblings(rng, units)
+    if siblings:
+        add_siblings(rng, units)
     return Forest(units)
 
 
@@ -178,3 +179,119 @@ def cooked_preorder(d, route=()):
 
 def cooked_units(forest):
     return [u for u in forest.units if u.root.tag != DW_TAG["partial_unit"]]
+
+
+# ------------------------------------------------- specification / abstract_origin chains
+INHERITABLE = [("decl_line", "data1"), ("decl_line", "udata"), ("decl_column", "data1"), ("external", "flag"), ("linkage_name", "string"),
+               ("accessibility", "data1"), ("byte_size", "data1"), ("artificial", "flag"), ("inline", "data1"), ("prototyped", "flag"), ("alignment", "udata")]
+
+
+def rand_inh_attrs(rng, version, with_name, forbid=()):
+    attrs = []
+    if with_name:
+        attrs.append(("name", rng.choice(["string", "strp"]), ("f%d" % rng.randint(0, 999)).encode()))
+    for a, f in rng.sample(INHERITABLE, rng.randint(0, 5)):
+        if a in [x[0] for x in attrs] or a in forbid:
+            continue
+        v = rng.randint(0, 200) if f in ("data1", "udata") else (rng.random() < 0.5 if f == "flag" else b"_Zx%d" % rng.randint(0, 99))
+        if a in ("accessibility",):
+            v = rng.randint(1, 3)
+        if a == "inline":
+            v = rng.randint(0, 3)
+        attrs.append((a, f, v))
+    return attrs
+
+
+def add_inheritance(rng, forest, both_prob=0.0):
+    """Append chains D0 -(origin/specification)-> D1 -> ... to the compile units.  With BOTH_PROB a DIE carries
+    both references (the branches then define disjoint attribute sets unless both_prob is exactly 1.0)."""
+    chains = []
+    cus = [u for u in forest.units if u.root.tag == DW_TAG["compile_unit"]]
+    for u in cus:
+        for _ in range(rng.randint(1, 4)):
+            n = rng.randint(0, 4)
+            dies = []
+            for k in range(n + 1):
+                last = (k == n)
+                attrs = rand_inh_attrs(rng, u.version, with_name=(last or rng.random() < 0.3))
+                if last and rng.random() < 0.7:
+                    attrs.append(("declaration", "flag_present" if u.version >= 4 else "flag", None if u.version >= 4 else True))
+                dies.append(Die("subprogram" if k else rng.choice(["subprogram", "inlined_subroutine", "variable"]), attrs))
+            for k in range(n):
+                ref = rng.choice(["specification", "abstract_origin"])
+                pos = rng.randint(0, len(dies[k].attrs))
+                dies[k].attrs.insert(pos, (ref, rng.choice(["ref4", "ref4", "ref_udata", "ref_addr"]), dies[k + 1]))
+            if n >= 1 and rng.random() < both_prob:
+                # a second branch off the head
+                other_ref = "specification" if dies[0].at("specification") is None else "abstract_origin"
+                have = set(atcode(a) for d in dies for a, _, _ in d.attrs)
+                forbid = [a for a, _ in INHERITABLE if DW_AT[a] in have] if both_prob < 1.0 else []
+                extra = Die("subprogram", rand_inh_attrs(rng, u.version, with_name=(DW_AT["name"] not in have or both_prob >= 1.0), forbid=forbid))
+                dies[0].attrs.append((other_ref, "ref4", extra))
+                dies.append(extra)
+            order = list(dies)
+            rng.shuffle(order)
+            for d in order:
+                u.root.children.insert(rng.randint(0, len(u.root.children)), d)
+            u.root.has_children = None
+            chains.append(dies)
+    return chains
+
+
+def reachable_sources(d):
+    """DIEs reachable from D through specification/abstract_origin (D excluded), and whether the
+    reference graph branches anywhere (some DIE carries both references)."""
+    out = []
+    visited = {id(d)}
+    branching = False
+    frontier = [d]
+    while frontier:
+        nxt = []
+        for x in frontier:
+            refs = [v for a, f, v in x.attrs if atcode(a) in (DW_AT["specification"], DW_AT["abstract_origin"]) and isinstance(v, Die)]
+            if len(refs) > 1:
+                branching = True
+            for v in refs:
+                if id(v) not in visited:
+                    visited.add(id(v))
+                    nxt.append(v)
+                    out.append(v)
+        frontier = nxt
+    return out, branching
+
+
+def cooked_attrs(d):
+    """(own [(at, form)], integrated [(at, form, source offset)], ambiguous names) per the documentation: own attributes,
+    then those reachable through specification/abstract_origin that it lacks; never sibling/declaration; never a name
+    twice.  On a linear chain the nearest definition is the one both a depth-first and a breadth-first reading agree
+    on; where the reference graph branches and several reachable DIEs define a lacking name, the statement does not
+    say which one supplies it: those names are returned as ambiguous (their presence is still required)."""
+    own = [attr_pair(a, f, v) for a, f, v in d.attrs]
+    seen = set(a for a, _ in own)
+    sources, branching = reachable_sources(d)
+    integ = {}
+    count = {}
+    for t in sources:
+        for a, f, v in t.attrs:
+            ac, fc = attr_pair(a, f, v)
+            if ac in (DW_AT["sibling"], DW_AT["declaration"]) or ac in seen:
+                continue
+            count[ac] = count.get(ac, 0) + 1
+            if ac not in integ:
+                integ[ac] = (ac, fc, t.offset)
+    amb = set(ac for ac, n in count.items() if n > 1 and branching)
+    return own, list(integ.values()), amb
+
+
+def nearest_value(d, name):
+    """The (form, value) a cooked @AT_name sees: own, else the nearest one along the reference chain; None if absent
+    or if the reference graph branches and several reachable DIEs define it."""
+    code = DW_AT[name]
+    own = [(f, v) for a, f, v in d.attrs if atcode(a) == code]
+    if own:
+        return own[0]
+    sources, branching = reachable_sources(d)
+    found = [(f, v) for t in sources for a, f, v in t.attrs if atcode(a) == code]
+    if not found or (branching and len(found) > 1):
+        return None
+    return found[0]
